@@ -20,9 +20,10 @@ theorem layer_name_ne (g : Geo) (lay : Layer) (hwf : LayersWF g) (hl : lay ∈ g
   exact fun h => hnd.1 lay hl h
 
 theorem surface_inside (g : Geo) (lay : Layer) (col : Column) (hwf : LayersWF g) (hl : lay ∈ g.layers)
-    (ha : 0 < col.area) (hb : lay.bottom < col.surface) (ht : col.surface ≤ lay.top) :
+    (ha : 0 < col.area) (hb : lay.bottom < col.surface) (ht : col.surface ≤ lay.top)
+    (lt : Rat) (hlt : col.surface - lay.bottom ≤ lt) :
     ∃ c v, blockCentre g lay col = some c ∧ blockVolume g lay col = some v ∧
-      surfaceFormula c.z (v / col.area) (lay.top - lay.bottom) = col.surface := by
+      surfaceFormula c.z (v / col.area) lt = col.surface := by
   have hn := layer_name_ne g lay hwf hl
   refine ⟨⟨col.centre.x, col.centre.y, (1 / 2 : Rat) * (lay.bottom + col.surface)⟩,
           col.area * (blockTop g lay col - lay.bottom), ?_, Proofs.FromGeo.block_volume_any g lay col hwf hl hb, ?_⟩
@@ -40,8 +41,7 @@ theorem surface_inside (g : Geo) (lay : Layer) (col : Column) (hwf : LayersWF g)
       field_simp
     rw [hbh]
     unfold surfaceFormula
-    have : col.surface - lay.bottom ≤ lay.top - lay.bottom := by linarith
-    simp only [this, if_true]
+    simp only [hlt, if_true]
     ring
 
 theorem surface_above (g : Geo) (lay : Layer) (col : Column) (hwf : LayersWF g)
